@@ -4,9 +4,9 @@ run in parallel on all cores, and a crash of the library takes down exactly one 
 import json, os, select, signal, subprocess, sys, time, multiprocessing
 
 VERIF = os.path.dirname(os.path.dirname(os.path.abspath(__file__)))
-MC_BIN = os.path.join(VERIF, ".build", "release", "mc")
+MC_BIN = "/verif/.build/release/mc"        # absolute: mc/.cargo/config.toml sets target-dir=/verif/.build (also used from vp-run snapshots)
 RULES = "/repo/Rules"
-WORK = os.path.join(VERIF, ".work")
+WORK = "/verif/.work"
 HOME = os.path.join(WORK, "home")          # empty: the library reads ~/.config/MathCAT/prefs.yaml
 
 
